@@ -124,9 +124,12 @@ ASMJIT_FAVOR_SIZE Error FuncArgsContext::init_work_data(const FuncFrame& frame, 
 
           if (dst_id == src_id) {
             // The best case, register is allocated where it is expected to be. However, we should
-            // not mark this as done if both registers are GP and sign or zero extension is required.
+            // not mark this as done if both registers are GP and sign or zero extension is required,
+            // or if the argument has to be converted from float to double or vice versa.
             if (dst_group != RegGroup::kGp) {
-              var.mark_done();
+              if (!is_float_conversion_required(dst.type_id(), src.type_id())) {
+                var.mark_done();
+              }
             }
             else {
               TypeId dt = dst.type_id();
